@@ -52,7 +52,8 @@ Record gfunc := mkFunc {
   fn_doc : string
 }.
 
-Record gvar := mkVar { gv_pkg : string; gv_name : string; gv_type : string; gv_kind : string; gv_is_const : bool }.
+Record gvar := mkVar { gv_pkg : string; gv_name : string; gv_type : string; gv_kind : string; gv_is_const : bool;
+                       gv_value : string (* source value of a string constant, "" otherwise *) }.
 
 Record gfield := mkField { fd_name : string; fd_type : string; fd_embedded : bool }.
 Record gstruct := mkStruct { st_pkg : string; st_name : string; st_fields : list gfield }.
